@@ -574,13 +574,12 @@ def nonpositive_clock(fb, rep, clause):
 
 # ----------------------------------------------------------------------------- .4
 
-def c4_options_before_limits(fb, rep):
+def c4_options_before_limits(fb, rep, clause='C06.4'):
     """K2: option values are changed by the engine thread (Parameters::set is confined to it, C05.6) from a queue the
     protocol thread fills.  The protocol thread reads options itself when it handles `go` (BufferTime and the other
     time-management parameters in computeTimeLimit, strength / MultiPV / book options in startThread).  So on every go
     path the queue must have been drained - waitOptionsSet(), after the running search was stopped - before the first
     such read; otherwise `setoption name BufferTime ...` followed at once by `go` budgets with the old buffer."""
-    clause = 'C06.4'
     st = fb.find1('EngineControl::stopThread')
     if rep.need(clause, st, 'EngineControl::stopThread') is None:
         return
